@@ -52,3 +52,7 @@ def events(name):     # ghost trace of contract-level events (pyvc only)
 
 def same_object(a, b):
     return a is b
+
+
+def final(name):      # value of a local of the verified function at return (pyvc only)
+    raise NotImplementedError
